@@ -229,6 +229,30 @@ fn explore_clip(e: &mut Eval, st: &State, case: &str, extra: &[(&str, String)], 
     }
     let mut count = 0u64;
     let scale = vref.abs().max(1e-300);
+    // the same clip starting from elsewhere: the cell after a round trip through the type states (with_faces, then
+    // discard_faces "making this cell safe for clipping by additional half spaces again"), and a clone of it
+    if st.dim == 3 {
+        let mut rt = base.clone();
+        match guarded(|| {
+            rt.cell = rt.cell.clone().with_faces().discard_faces();
+            rt.clip_by_neighbour_unconditional(ngb, shift);
+            rt
+        }) {
+            Err(p) => e.issue(format!("panic-after-type-state-round-trip:{}", p.msg.chars().take(50).collect::<String>()), case, format!("clip after with_faces().discard_faces(): {} ({})", p.msg, p.site), rp()),
+            Ok(rt) => {
+                count += 1;
+                let can = canonical(&rt);
+                if can != after {
+                    e.issue("result-depends-on-type-state-history", case, format!("clip after with_faces().discard_faces(): vertex set {:?} instead of {:?}", can, after), rp());
+                } else {
+                    let v = volume(&rt);
+                    if !((v - vref).abs() <= 1e-9 * scale + 1e-13) {
+                        e.issue("volume-depends-on-type-state-history", case, format!("clip after with_faces().discard_faces(): volume {:e} vs {:e}", v, vref), rp());
+                    }
+                }
+            }
+        }
+    }
     for kept_variant in 0..kept_menu {
         for ord in &ords {
             for rot in &rots {
@@ -629,7 +653,7 @@ pub fn run_c18(run: &mut Run) {
     {
         let b = boxes[0];
         let mut items: Vec<(State, Vec<DVec3>)> = vec![];
-        for nshell in if thorough { vec![40usize, 80, 120, 200] } else { vec![80usize, 120] } {
+        for nshell in if thorough { vec![40usize, 80, 120, 200, 255, 256, 257, 300, 400] } else { vec![80usize, 120, 300] } {
             let c = b.anchor + 0.5 * b.width;
             let mut gens = vec![c];
             let golden = std::f64::consts::PI * (3. - 5f64.sqrt());
